@@ -763,7 +763,11 @@ def model_selftest(ctx):
 
 
 def run(ctx):
-    ctx.lean_stage()
+    # _precond_dim / _should_compress are re-translated from the current source; Props/Gen.lean bridges them to the model
+    kit.gen_stage(ctx)
+    ctx.lean_stage(extra_props=("Gen",))
+    ctx.notes.append("model tie #2: _precond_dim/_should_compress regenerated from the source by harness/py2lean.py on this run; "
+                     "bridge theorems PrecondVerif.GenProps.C10.* (Props/Gen.lean) prove them equal to Shapes.precondDim/shouldCompress")
     stats = Counter()
     model_selftest(ctx)
     tol = const_stage(ctx)
